@@ -51,7 +51,16 @@ def classify_cli(case, s, j):
     return sqlite3.connect(db), error, directory
 
 
-def raise_classify_error(exc):
+def raise_classify_error(exc, connection=None):
+    if (connection is not None and isinstance(exc, ValueError)
+            and 'No valid data intervals' in str(exc)):
+        labelled = connection.execute(
+            'SELECT count(*) FROM grid_time '
+            'WHERE data_interval IS NOT NULL').fetchone()[0]
+        if labelled == 0:
+            # every grid instant lies inside a gap: nothing to classify;
+            # the explicit refusal is C01's concern (DESIGN 6, O3)
+            raise Reject('nothing-to-classify')
     sig = exception_signature(exc)
     if sig is None:
         raise exc
